@@ -236,6 +236,58 @@ def validate(chk, events, name):
     return out
 
 
+def corpus(chk, build, workdir, stats):
+    """Hand-written libaldor programs outside the reach of AldorSem (machine-level builtins, characters, arrays,
+    generators, unions, user domains): no independent expected value exists, so the property is checked in its literal
+    form -- an equality between runs -- with the Obs monitor: the observation (build outcome, stdout, exit class) must be
+    the same function of the program on every route and level."""
+    cdir = os.path.join(vlib.VERIF, "gen", "c12_corpus")
+    progs = []
+    for f in sorted(os.listdir(cdir)):
+        if f.endswith(".as"):
+            progs.append({"id": "c_" + f[:-3], "source_text": open(os.path.join(cdir, f)).read(), "render_opts": {"dialect": "libaldor"},
+                          "funs": [], "top": []})
+    jobs = [(p, route, q, ()) for p in progs for route in ROUTES for q in LEVELS]
+    results = progrun.run_many(build, jobs, workdir, timeout=RUN_TIMEOUT, cpu_limit=CPU_LIMIT)
+    events, info = [], {}
+    for (p, route, q, xa), r in zip(jobs, results):
+        built = "timeout" if r.get("timeout") else (r["phase"] if r["phase"] in ("compile", "javac") else "ok")
+        obs = [built, progcheck.program_output(r) if built == "ok" else "", 0 if r["rc"] == 0 else 1]
+        events.append({"ev": "Observe", "input": p["id"], "cfg": "%s-Q%d" % (route, q), "digest": digest(json.dumps(obs))})
+        info[len(events)] = (p, route, q, r, obs)
+        chk.case(("corpus", p["id"], route, q), nontrivial=built == "ok" and len(r["out"]) > 0)
+    d = vlib.scratch("c12obs")
+    path = os.path.join(d, "trace.ndjson")
+    vlib.write_ndjson(path, events)
+    res = vlib.tlc("TraceObs", "TraceObsC12", workers=1, env={"TRACE": path}, timeout=600)
+    chk.add_tlc("TraceObs[corpus]", res)
+    if res.violated or not any(isinstance(l, str) and l.startswith("SUMMARY ") for l in res.printed):
+        raise vlib.MachineryError("corpus trace not validated: %s\n%s" % (res.violated, res.out[-1500:]))
+    first = {}
+    for n, (p, route, q, r, obs) in sorted(info.items()):
+        first.setdefault(p["id"], (route, q, r, obs))
+    seen = set()
+    for l in res.printed:
+        m = re.match(r"DISAGREE <<(\d+),", l) if isinstance(l, str) else None
+        if not m or int(m.group(1)) in seen:
+            continue
+        seen.add(int(m.group(1)))
+        p, route, q, r, obs = info[int(m.group(1))]
+        f = first[p["id"]]
+        key = {"kind": "corpus-disagreement", "prog": p["id"], "route": route, "opts": ["-Q%d" % q], "built": obs[0]}
+        chk.violation("corpus program %s: %s -Q%d differs from %s -Q%d" % (p["id"], route, q, f[0], f[1]),
+                      {"program_id": p["id"], "route": route, "level": q, "observed": obs, "reference": f[3], "reference_cfg": "%s-Q%d" % (f[0], f[1]),
+                       "got_err": r["err"][:2000], "source": p["source_text"]}, key=key)
+    # every corpus program must at least run on the reference configuration, otherwise it checks nothing
+    for pid, (route, q, r, obs) in first.items():
+        if obs[0] != "ok" or r["rc"] != 0:
+            raise vlib.MachineryError("corpus program %s does not run on %s -Q%d: %s" % (pid, route, q, (r["out"] + r["err"])[:500]))
+    chk.traces += len(jobs)
+    stats["corpus_programs"] = len(progs)
+    stats["corpus_runs"] = len(jobs)
+    stats["corpus_disagreements"] = len(seen)
+
+
 def model_check(chk, tier):
     """The monitor itself, exhaustively on small constants."""
     runs = [("JavaRouteMC", 8)] if tier == "quick" else [("JavaRouteMC", 8), ("JavaRouteMC1", 8), ("JavaRouteMC2", 8)]
@@ -261,8 +313,8 @@ def run(chk, tier):
         mc = bg.submit(model_check, chk, tier)
         # the hand-built probes of every admitted feature (and of the family boundary) lead the first batch
         fixed = javaslice.fixed_programs()
-        n = 26 if tier == "quick" else 900
-        batch = 26 if tier == "quick" else 100
+        n = 20 if tier == "quick" else 900
+        batch = 20 if tier == "quick" else 100
         budget = 100 if tier == "quick" else 1500
         done, k = 0, 0
         while done < n:
@@ -290,6 +342,7 @@ def run(chk, tier):
             if time.time() - chk.t0 > budget and done < n:
                 stats["stopped_early_after_programs"] = done
                 break
+        corpus(chk, b, wd, stats)
         for cfg, r in mc.result():
             chk.add_tlc(cfg, r)
             if r.violated:
